@@ -165,33 +165,8 @@ fn is_integer_value(v: &Value) -> bool {
     )
 }
 
-pub fn run(ctx: &Ctx) {
-    ctx.set_rule("case = (kind, value, fixed-point data); complete product of the alphabets; non-trivial = fixed-point kind with data and an integer value (the conversion formula is actually evaluated)");
-    ctx.assume("exactness is judged for integer values of up to 64 bits (the statement's formula uses double precision; 128-bit values are only checked for no-panic and for the 'Some only if' clause)");
-    let ks = kinds();
-    let vs = values(ctx.tier);
-    let qs = quantizations(ctx.tier);
-    let os = offsets(ctx.tier);
-    // fixed point dimension: index 0 = absent, else (q, o)
-    let nfp = 1 + qs.len() * os.len();
-    let space = Space::new(&[ks.len(), vs.len(), nfp]);
-    ctx.put("alphabet", json!({"kinds": ks.len(), "values": vs.len(), "quantizations": qs.len(), "offsets": os.len()}));
-    let (ks, vs, qs, os) = (&ks, &vs, &qs, &os);
-    let sp = space.clone();
-    ctx.run_family(Family::new(
-        "c18.to_real_value",
-        space.size(),
-        format!("{} kinds x {} values x (absent + {} quantizations x {} offsets)", ks.len(), vs.len(), qs.len(), os.len()),
-        move |idx, loc| {
-            let c = sp.coords(idx);
-            let kind = ks[c[0]].clone();
-            let value = vs[c[1]].clone();
-            let fixed_point = if c[2] == 0 {
-                None
-            } else {
-                let j = c[2] - 1;
-                Some(FixedPoint { quantization: qs[j % qs.len()], offset: os[j / qs.len()].clone() })
-            };
+/// Judge one argument (shared by all families).
+fn judge(kind: TypeInfoKind, value: Value, fixed_point: Option<FixedPoint>, idx: u64, loc: &mut Local) {
             let arg = Argument {
                 type_info: TypeInfo { kind: kind.clone(), coding: StringCoding::UTF8, has_variable_info: false, has_trace_info: false },
                 name: None,
@@ -247,6 +222,122 @@ pub fn run(ctx: &Ctx) {
                     }
                 }
             }
+}
+
+pub fn run(ctx: &Ctx) {
+    ctx.set_rule("case = (kind, value, fixed-point data); complete product of the alphabets; non-trivial = fixed-point kind with data and an integer value (the conversion formula is actually evaluated)");
+    ctx.assume("exactness is judged for integer values of up to 64 bits (the statement's formula uses double precision; 128-bit values are only checked for no-panic and for the 'Some only if' clause)");
+    let ks = kinds();
+    let vs = values(ctx.tier);
+    let qs = quantizations(ctx.tier);
+    let os = offsets(ctx.tier);
+    // fixed point dimension: index 0 = absent, else (q, o)
+    let nfp = 1 + qs.len() * os.len();
+    let space = Space::new(&[ks.len(), vs.len(), nfp]);
+    ctx.put("alphabet", json!({"kinds": ks.len(), "values": vs.len(), "quantizations": qs.len(), "offsets": os.len()}));
+    let (ks, vs, qs, os) = (&ks, &vs, &qs, &os);
+    let sp = space.clone();
+    ctx.run_family(Family::new(
+        "c18.to_real_value",
+        space.size(),
+        format!("{} kinds x {} values x (absent + {} quantizations x {} offsets)", ks.len(), vs.len(), qs.len(), os.len()),
+        move |idx, loc| {
+            let c = sp.coords(idx);
+            let kind = ks[c[0]].clone();
+            let value = vs[c[1]].clone();
+            let fixed_point = if c[2] == 0 {
+                None
+            } else {
+                let j = c[2] - 1;
+                Some(FixedPoint { quantization: qs[j % qs.len()], offset: os[j / qs.len()].clone() })
+            };
+            judge(kind, value, fixed_point, idx, loc);
         },
     ));
+    // dense family: bit-level value coverage x f32 exponent sweep x offsets
+    {
+        use FloatWidth::*;
+        let fk = [TypeInfoKind::SignedFixedPoint(Width32), TypeInfoKind::UnsignedFixedPoint(Width32), TypeInfoKind::SignedFixedPoint(Width64), TypeInfoKind::UnsignedFixedPoint(Width64)];
+        let mut vals: Vec<Value> = vec![];
+        for b in 0..=255u8 {
+            vals.push(Value::U8(b));
+            vals.push(Value::I8(b as i8));
+        }
+        for x in (0..=65_535u32).filter(|x| x % 251 == 0 || *x < 20 || *x > 65_520 || (32_760..32_776).contains(x) || [1000, 12_345, 50_000, 100, 4321].contains(x)) {
+            vals.push(Value::U16(x as u16));
+            vals.push(Value::I16(x as u16 as i16));
+        }
+        for b in 0..32 {
+            vals.push(Value::U32(1 << b));
+            vals.push(Value::U32(!(1u32 << b)));
+            vals.push(Value::I32((1u32 << b) as i32));
+            vals.push(Value::I32(!(1u32 << b) as i32));
+        }
+        for b in 0..64 {
+            vals.push(Value::U64(1 << b));
+            vals.push(Value::U64(!(1u64 << b)));
+            vals.push(Value::I64((1u64 << b) as i64));
+            vals.push(Value::I64(!(1u64 << b) as i64));
+        }
+        for x in [3u32, 7, 199, 1000, 12_345, 1_000_000, 3_000_000_000, 4_000_000_007, 16_777_217, 2_147_483_647] {
+            vals.push(Value::U32(x));
+            vals.push(Value::I32(x as i32));
+            vals.push(Value::U64(x as u64 * 1_000_003));
+            vals.push(Value::I64(-(x as i64) * 1_000_003));
+        }
+        let mut qs: Vec<f32> = vec![];
+        for e in 0..=255u32 {
+            for m in [0u32, 1, 0x0040_0000, 0x007F_FFFF, 0x0012_3456] {
+                for sgn in [0u32, 1] {
+                    qs.push(f32::from_bits((sgn << 31) | (e << 23) | m));
+                }
+            }
+        }
+        for d in [0.01f32, 0.1, 0.7, 0.3, 0.999_999_94, 1.000_000_1, 3.0, 7.0, 10.0, 100.0, 4321.0, 1e6, 1e9, 16_777_215.0, 16_777_216.0, 2_147_483_648.0, 4_294_967_296.0, 9.223_372e18, 1.844_674_4e19] {
+            qs.push(d);
+            qs.push(-d);
+        }
+        let mut os: Vec<FixedPointValue> = vec![];
+        let base32 = [0i32, -1, -50, 5, 0x0102_0304, 1 << 30, i32::MIN, i32::MAX];
+        let base64 = [0i64, -1, -45, (1 << 53) + 1, i64::MIN, i64::MAX, -(1 << 40), 0x0102_0304_0506_0708];
+        for v in base32 {
+            os.push(FixedPointValue::I32(v));
+        }
+        for v in base64 {
+            os.push(FixedPointValue::I64(v));
+        }
+        if ctx.tier == Tier::Thorough {
+            for b in 0..32 {
+                os.push(FixedPointValue::I32((1u32 << b) as i32));
+                os.push(FixedPointValue::I32(!(1u32 << b) as i32));
+            }
+            for b in 0..64 {
+                os.push(FixedPointValue::I64((1u64 << b) as i64));
+                os.push(FixedPointValue::I64(!(1u64 << b) as i64));
+            }
+        }
+        let sp = Space::new(&[fk.len(), vals.len(), qs.len(), os.len()]);
+        let s2 = sp.clone();
+        let (vals, qs, os) = (&vals, &qs, &os);
+        ctx.run_family(Family::new("c18.dense", sp.size(), format!("4 fixed-point kinds x {} integer values (all 256 of the 8-bit types, 16-bit every 251st + boundaries, walking ones/zeros of the 32/64-bit types, mid-range constants) x {} quantizations (every f32 exponent x 5 mantissas x sign; decimal and power-of-two constants) x {} offsets", vals.len(), qs.len(), os.len()), move |i, loc| {
+            let c = s2.coords(i);
+            judge(fk[c[0]].clone(), vals[c[1]].clone(), Some(FixedPoint { quantization: qs[c[2]], offset: os[c[3]].clone() }), i, loc);
+        }).distinct());
+    }
+    // thorough: ALL 2^32 quantization bit patterns for a few (value, offset) pairs
+    if ctx.tier == Tier::Thorough {
+        use FloatWidth::*;
+        let combos: Vec<(TypeInfoKind, Value, FixedPointValue)> = vec![
+            (TypeInfoKind::UnsignedFixedPoint(Width32), Value::U16(3), FixedPointValue::I32(-1)),
+            (TypeInfoKind::UnsignedFixedPoint(Width32), Value::U32(4_000_000_007), FixedPointValue::I32(5)),
+            (TypeInfoKind::SignedFixedPoint(Width64), Value::I16(12_345), FixedPointValue::I64(-45)),
+            (TypeInfoKind::SignedFixedPoint(Width32), Value::U8(199), FixedPointValue::I32(0)),
+        ];
+        let n = combos.len() as u64;
+        let combos = &combos;
+        ctx.run_family(Family::new("c18.all_quantizations", n << 32, "ALL 2^32 f32 quantization bit patterns x 4 (kind, value, offset) combinations: U16 3 / -1, U32 4000000007 / +5, I16 12345 / -45, U8 199 / 0", move |i, loc| {
+            let (k, v, o) = &combos[(i >> 32) as usize];
+            judge(k.clone(), v.clone(), Some(FixedPoint { quantization: f32::from_bits(i as u32), offset: o.clone() }), i, loc);
+        }).distinct());
+    }
 }
